@@ -493,9 +493,20 @@ impl FunctionCompiler<'_> {
             // there was an unfinished comptime
             let body = self.world_bodies.global_body(loc.to_naive());
 
-            // todo: could this cause issues?
+            // The body of the global is compiled inline. It belongs to another location, maybe to
+            // another file, and locals, switch arguments and scopes are keyed by indices that are
+            // only unique within one file, so it must not share those tables with the code
+            // around it (and it can't refer to anything in them anyways).
             let old_loc = std::mem::replace(&mut self.loc, loc.wrap());
+            let old_locals = std::mem::take(&mut self.locals);
+            let old_switch_locals = std::mem::take(&mut self.switch_locals);
+            let old_exits = std::mem::take(&mut self.exits);
+            let old_continues = std::mem::take(&mut self.continues);
             let res = self.compile_expr_with_args(body, no_load);
+            self.continues = old_continues;
+            self.exits = old_exits;
+            self.switch_locals = old_switch_locals;
+            self.locals = old_locals;
             self.loc = old_loc;
 
             return res;
